@@ -168,6 +168,58 @@ class _Expr(SymEval):
             raise NotSymbolic("shape of a list")
         raise NotSymbolic(f"attribute {n.attr} of {type(base).__name__}")
 
+    _MISSING = object()
+
+    def _external_default(self, name, n):
+        """Built-in models of a few external callables (grouping, weak references, calls without value effect)."""
+        if name == "itertools.groupby" and n.args:
+            seq = self.eval(n.args[0])
+            seq = [seq[i] for i in range(seq.shape[0])] if isinstance(seq, np.ndarray) else list(seq)
+            kwv = {k.arg: self.eval(k.value) for k in n.keywords}
+            keyf = kwv.get("key", self.eval(n.args[1]) if len(n.args) > 1 else None)
+            out_, cur_key, cur = [], object(), None
+            for x in seq:
+                kx = self._call_value(keyf, [x]) if keyf is not None else x
+                if isinstance(kx, (Sym, Rec, np.ndarray)):
+                    raise NotSymbolic("grouping by a symbolic key")
+                if cur is None or kx != cur_key:
+                    cur = []
+                    out_.append((kx, cur))
+                    cur_key = kx
+                cur.append(x)
+            return out_
+        if name in ("weakref.ref", "weakref.proxy") and len(n.args) == 1:
+            target = self.eval(n.args[0])
+            return ("<function>", lambda a, k, target=target: target) if name == "weakref.ref" else target
+        if name in _NO_VALUE_EFFECT:
+            for a in n.args:
+                self.eval(a)
+            return None
+        return self._MISSING
+
+    def e_Lambda(self, n):
+        a = n.args
+        if a.vararg or a.kwarg or a.kwonlyargs or a.defaults or a.posonlyargs:
+            raise NotSymbolic("lambda with defaults / star arguments")
+        names = [x.arg for x in a.args]
+        env0, owner = self.env, self.owner
+
+        def call(args, kw, names=names, body=n.body):
+            if len(args) != len(names) or kw:
+                raise Raised("TypeError")
+            sub = _Expr(env0, owner)
+            for nm, v in zip(names, args):
+                sub.env[nm] = v
+            return sub.eval(body)
+
+        return ("<function>", call)
+
+    def _call_value(self, fv, args):
+        """Call a model callable (a lambda, a nested function, a package function) held as a value."""
+        if isinstance(fv, tuple) and len(fv) == 2 and fv[0] == "<function>":
+            return fv[1](list(args), {}) if callable(fv[1]) else self.owner.run_free(fv[1], list(args), {})
+        raise NotSymbolic("call of a non-function value")
+
     def e_BinOp(self, n):
         a, b = self.eval(n.left), self.eval(n.right)
 
@@ -362,13 +414,10 @@ class _Expr(SymEval):
                 if not all(isinstance(a, str) for a in args):
                     raise NotSymbolic(f"{r[1]} on non-constant arguments")
                 return _prog_call(_PURE_EXTERNALS[r[1]], *args)
-            if r is not None and r[0] == "external" and r[1] in ("weakref.ref", "weakref.proxy") and len(n.args) == 1:
-                target = self.eval(n.args[0])
-                return ("<function>", lambda a, k, target=target: target) if r[1] == "weakref.ref" else target
-            if r is not None and r[0] == "external" and r[1] in _NO_VALUE_EFFECT:
-                for a in n.args:
-                    self.eval(a)
-                return None
+            if r is not None and r[0] == "external":
+                dv = self._external_default(r[1], n)
+                if dv is not self._MISSING:
+                    return dv
         if isinstance(f, ast.Attribute) and isinstance(f.value, ast.Attribute) and f.value.attr == "linalg" and isinstance(root, ast.Name) and root.id in self.np_names:
             from .symarr import ProgramError
 
@@ -572,6 +621,10 @@ class _Expr(SymEval):
                 if not all(isinstance(a, str) for a in args):
                     raise NotSymbolic(f"{r[1]} on non-constant arguments")
                 return _prog_call(_PURE_EXTERNALS[r[1]], *args)
+            if r is not None and r[0] == "external":
+                dv = self._external_default(r[1], n)
+                if dv is not self._MISSING:
+                    return dv
             if r is not None and r[0] == "external" and r[1] in ("warnings.warn",):
                 for a in n.args:
                     self.eval(a)
@@ -620,6 +673,20 @@ class _Expr(SymEval):
                     return list(reversed(rows(args[0])))
                 vals = [self._truth(x) for x in rows(args[0])]
                 return all(vals) if f.id == "all" else any(vals)
+            if f.id in ("sorted", "min", "max") and n.args and n.keywords and all(k.arg in ("key", "reverse") for k in n.keywords):
+                seq = self.eval(n.args[0])
+                seq = [seq[i] for i in range(seq.shape[0])] if isinstance(seq, np.ndarray) else list(seq)
+                kwv = {k.arg: self.eval(k.value) for k in n.keywords}
+                keyf = kwv.get("key")
+                keys = [self._call_value(keyf, [x]) for x in seq] if keyf is not None else list(seq)
+                if any(isinstance(k_, (Sym, Rec)) or (isinstance(k_, np.ndarray) and k_.dtype == object) for k_ in keys):
+                    raise NotSymbolic("ordering by a symbolic key")
+                order = _prog_call(sorted, range(len(seq)), key=lambda i: keys[i], reverse=bool(kwv.get("reverse", False)))
+                if f.id == "sorted":
+                    return [seq[i] for i in order]
+                if not seq:
+                    raise Raised("ValueError")
+                return seq[order[0]] if f.id == "min" else seq[order[-1]] if not kwv.get("reverse") else seq[order[0]]
             if f.id in ("round", "min", "max", "sum", "str", "sorted", "list", "tuple", "dict", "set", "frozenset") and n.args and not n.keywords:
                 args = [self.eval(a) for a in n.args]
                 if all(not isinstance(a, (Sym, Rec)) and not (isinstance(a, np.ndarray) and a.dtype == object) for a in args):
